@@ -9,10 +9,6 @@ Open Scope nat_scope.
 
 Definition zeros (n : nat) : list Z := repeat 0%Z n.
 
-Definition remove_nth {A} (i : nat) (l : list A) : list A := firstn i l ++ skipn (S i) l.
-
-Definition deliver_height (h : Z) (o : option Z) : Z := match o with None => h | Some b => b end.
-
 (** the loop: [k] bounds the number of iterations, [n] is the number of tasks *)
 Fixpoint solo (c : config) (ts : list task) (n : nat) (h : Z) (k : nat) (view : list nat) (retry : nat)
   : list obs * bool :=
@@ -25,13 +21,11 @@ Fixpoint solo (c : config) (ts : list task) (n : nat) (h : Z) (k : nat) (view : 
           if max_retry <? S retry then ([], false)
           else match scan c ts (zeros n) h (limit_of (length view)) view 0 with
                | None => solo c ts n h k' view (S retry)
-               | Some (t, i) =>
+               | Some (t, _) =>
                    let p := task_peer ts t in
-                   match accepted (c_beh c p h) with
-                   | Some o => ([OReq h p; ODeliver (deliver_height h o) p], true)
-                   | None => let r := solo c ts n h k' (remove_nth i view) (S retry) in
-                             (OReq h p :: fst r, snd r)
-                   end
+                   if accepted (c_beh c p h) then ([OReq h p; ODeliver h p], true)
+                   else let r := solo c ts n h k' (without t view) (S retry) in
+                        (OReq h p :: fst r, snd r)
                end
       end
   end.
@@ -78,47 +72,56 @@ Proof.
     destruct (0 <? limit_of v)%Z eqn:Hz; [discriminate|]. apply Z.ltb_ge in Hz. lia.
 Qed.
 
-(** * remove_nth *)
+(** * without *)
 
-Lemma remove_nth_length {A} i (l : list A) : i < length l -> length (remove_nth i l) = length l - 1.
+Lemma without_in t l x : In x (without t l) <-> In x l /\ x <> t.
 Proof.
-  intro H. unfold remove_nth. rewrite app_length, firstn_length, skipn_length. lia.
+  unfold without. rewrite filter_In. split; intros [H1 H2]; (split; [exact H1|]).
+  - apply negb_true_iff in H2. apply Nat.eqb_neq in H2. exact H2.
+  - apply negb_true_iff. apply Nat.eqb_neq. exact H2.
 Qed.
 
-Lemma remove_nth_cons {A} i (x : A) l : remove_nth (S i) (x :: l) = x :: remove_nth i l.
-Proof. reflexivity. Qed.
-
-Lemma remove_nth_in {A} i (l : list A) x : In x (remove_nth i l) -> In x l.
+Lemma without_length_le t l : length (without t l) <= length l.
 Proof.
-  unfold remove_nth. intro H. apply in_app_or in H. destruct H as [H|H].
-  - rewrite <- (firstn_skipn i l). apply in_or_app. left. exact H.
-  - rewrite <- (firstn_skipn (S i) l). apply in_or_app. right. exact H.
+  unfold without. induction l as [|y l IH]; simpl; [lia|].
+  destruct (negb (y =? t)); simpl; lia.
 Qed.
 
-Lemma in_remove_nth {A} (l : list A) : forall i x d,
-  In x l -> x <> nth i l d -> In x (remove_nth i l).
+Lemma without_length_lt t l : In t l -> length (without t l) < length l.
 Proof.
-  induction l as [|y l IH]; intros i x d Hin Hne; [inversion Hin|].
-  destruct i as [|i].
-  - simpl in *. destruct Hin as [->|Hin]; [congruence|exact Hin].
-  - rewrite remove_nth_cons. simpl in *. destruct Hin as [->|Hin]; [left; reflexivity|].
-    right. apply (IH i x d Hin Hne).
+  unfold without. induction l as [|y l IH]; intro H; [inversion H|]. simpl.
+  destruct (Nat.eqb_spec y t) as [->|Hne]; simpl.
+  - pose proof (without_length_le t l) as Hle. unfold without in Hle. lia.
+  - destruct H as [H|H]; [congruence|]. specialize (IH H). lia.
 Qed.
 
-Lemma nodup_map_remove_nth {A B} (f : A -> B) (l : list A) : forall i d,
-  NoDup (map f l) -> i < length l ->
-  NoDup (map f (remove_nth i l)) /\ ~ In (f (nth i l d)) (map f (remove_nth i l)).
+Lemma nodup_map_inj {A B} (f : A -> B) (l : list A) x y :
+  NoDup (map f l) -> In x l -> In y l -> f x = f y -> x = y.
 Proof.
-  induction l as [|y l IH]; intros i d Hnd Hi; simpl in Hi; [lia|].
+  induction l as [|z l IH]; intros Hnd Hx Hy Heq; [inversion Hx|].
+  simpl in Hnd. inversion Hnd as [|? ? Hz Hnd']; subst.
+  destruct Hx as [->|Hx]; destruct Hy as [->|Hy]; auto.
+  - exfalso. apply Hz. rewrite Heq. apply in_map. exact Hy.
+  - exfalso. apply Hz. rewrite <- Heq. apply in_map. exact Hx.
+Qed.
+
+Lemma nodup_map_without {B} (f : nat -> B) t (l : list nat) :
+  NoDup (map f l) -> NoDup (map f (without t l)).
+Proof.
+  unfold without. induction l as [|y l IH]; intro Hnd; simpl; [constructor|].
   simpl in Hnd. inversion Hnd as [|? ? Hy Hnd']; subst.
-  destruct i as [|i].
-  - simpl. split; assumption.
-  - rewrite remove_nth_cons. simpl. destruct (IH i d Hnd' ltac:(lia)) as [H1 H2]. split.
-    + constructor; [|exact H1]. intro Hin. apply Hy.
-      apply in_map_iff in Hin. destruct Hin as [z [Hz Hin]]. apply in_map_iff. exists z. split; [exact Hz|].
-      apply (remove_nth_in _ _ _ Hin).
-    + intros [Heq|Hin]; [|exact (H2 Hin)].
-      apply Hy. rewrite Heq. apply in_map. apply nth_In. lia.
+  destruct (negb (y =? t)); simpl; [|apply IH; exact Hnd'].
+  constructor; [|apply IH; exact Hnd'].
+  intro Hin. apply Hy. apply in_map_iff in Hin. destruct Hin as [z [Hz Hin]].
+  apply in_map_iff. exists z. split; [exact Hz|]. apply filter_In in Hin. exact (proj1 Hin).
+Qed.
+
+Lemma map_without_notin {B} (f : nat -> B) t (l : list nat) :
+  NoDup (map f l) -> In t l -> ~ In (f t) (map f (without t l)).
+Proof.
+  intros Hnd Ht Hin. apply in_map_iff in Hin. destruct Hin as [z [Hz Hin]].
+  apply without_in in Hin. destruct Hin as [Hzl Hne].
+  apply Hne. apply (nodup_map_inj f l z t Hnd Hzl Ht Hz).
 Qed.
 
 (** * Requests of [solo] *)
@@ -144,21 +147,23 @@ Proof.
     { simpl. repeat split; [constructor|intros y []|intros o []]. }
     destruct (scan c ts (zeros n) h (limit_of (length view)) view 0) as [[t i]|] eqn:Hs.
     + destruct (scan_some _ _ _ _ _ _ _ _ _ Hs) as [_ [Hi [Hnth _]]]. rewrite Nat.sub_0_r in *.
-      destruct (accepted (c_beh c (task_peer ts t) h)) as [a|].
+      assert (Ht : In t view) by (rewrite <- Hnth; apply nth_In; exact Hi).
+      destruct (accepted (c_beh c (task_peer ts t) h)).
       * cbn [fst req_peers flat_map app]. repeat split.
         -- constructor; [intros []|constructor].
-        -- intros y [<-|[]]. rewrite <- Hnth. apply in_map. apply nth_In. exact Hi.
+        -- intros y [<-|[]]. apply in_map. exact Ht.
         -- intros o [<-|[<-|[]]]; auto.
       * cbn [fst snd].
-        destruct (nodup_map_remove_nth (task_peer ts) view i 0 Hnd Hi) as [Hnd' Hnotin].
-        destruct (IH (remove_nth i view) (S retry) Hnd') as [H1 [H2 H3]].
-        cbn [req_peers flat_map app]. fold (req_peers (fst (solo c ts n h k (remove_nth i view) (S retry)))).
+        pose proof (nodup_map_without (task_peer ts) t view Hnd) as Hnd'.
+        pose proof (map_without_notin (task_peer ts) t view Hnd Ht) as Hnotin.
+        destruct (IH (without t view) (S retry) Hnd') as [H1 [H2 H3]].
+        cbn [req_peers flat_map app]. fold (req_peers (fst (solo c ts n h k (without t view) (S retry)))).
         repeat split.
-        -- constructor; [|exact H1]. intro Hin. apply Hnotin. rewrite Hnth. apply H2. exact Hin.
+        -- constructor; [|exact H1]. intro Hin. apply Hnotin. apply H2. exact Hin.
         -- intros y [<-|Hy].
-           ++ rewrite <- Hnth. apply in_map. apply nth_In. exact Hi.
+           ++ apply in_map. exact Ht.
            ++ specialize (H2 y Hy). apply in_map_iff in H2. destruct H2 as [z [Hz Hin]].
-              apply in_map_iff. exists z. split; [exact Hz|]. apply (remove_nth_in _ _ _ Hin).
+              apply in_map_iff. exists z. split; [exact Hz|]. apply without_in in Hin. exact (proj1 Hin).
         -- intros o [<-|Ho]; [reflexivity|]. apply (H3 o Ho).
     + apply (IH view (S retry) Hnd).
 Qed.
@@ -188,69 +193,38 @@ Qed.
 
 Definition good (c : config) (ts : list task) (h : Z) (t : nat) : bool := serves c (task_peer ts t) h.
 
-Definition wrong_free (c : config) (ts : list task) (h : Z) (view : list nat) : bool :=
-  forallb (fun t => match c_beh c (task_peer ts t) h with RWrong _ => false | _ => true end) view.
-
-(** no peer of the view stays silent for this height *)
-Definition stall_free (c : config) (ts : list task) (h : Z) (view : list nat) : bool :=
-  forallb (fun t => negb (is_stall (c_beh c (task_peer ts t) h))) view.
-
-Lemma existsb_remove_nth (f : nat -> bool) (l : list nat) i :
-  existsb f l = true -> f (nth i l 0) = false -> existsb f (remove_nth i l) = true.
+Lemma existsb_without (f : nat -> bool) (l : list nat) t :
+  existsb f l = true -> f t = false -> existsb f (without t l) = true.
 Proof.
   intros He Hf. apply existsb_exists in He. destruct He as [x [Hin Hx]].
   apply existsb_exists. exists x. split; [|exact Hx].
-  apply (in_remove_nth l i x 0 Hin). intro Heq. rewrite Heq in Hx. congruence.
+  apply without_in. split; [exact Hin|]. intro Heq. rewrite Heq in Hx. congruence.
 Qed.
 
-Lemma forallb_remove_nth (f : nat -> bool) (l : list nat) i :
-  forallb f l = true -> forallb f (remove_nth i l) = true.
-Proof.
-  intro H. apply forallb_forall. intros x Hx.
-  apply (proj1 (forallb_forall f l) H). apply (remove_nth_in _ _ _ Hx).
-Qed.
-
-(** completeness: a serving peer in the view, no wrong-height answers, and
-    room in the retry budget => the height is delivered *)
+(** completeness: a serving peer in the view and room in the retry budget =>
+    the height is delivered *)
 Lemma solo_delivers c ts n h : forall k view retry,
-  existsb (good c ts h) view = true -> wrong_free c ts h view = true ->
+  existsb (good c ts h) view = true ->
   retry + length view <= max_retry -> 51 - retry <= k ->
   snd (solo c ts n h k view retry) = true
   /\ exists p, In (ODeliver h p) (fst (solo c ts n h k view retry)).
 Proof.
-  induction k as [|k IH]; intros view retry Hex Hwf Hlen Hk; [unfold max_retry in *; lia|].
+  induction k as [|k IH]; intros view retry Hex Hlen Hk; [unfold max_retry in *; lia|].
   cbn [solo]. destruct view as [|x view'] eqn:Hv; [discriminate|]. rewrite <- Hv in *.
   assert (Hpos : 0 < length view) by (rewrite Hv; simpl; lia). clear Hv.
   destruct (max_retry <? S retry) eqn:Hr; [apply Nat.ltb_lt in Hr; lia|].
   destruct (scan c ts (zeros n) h (limit_of (length view)) view 0) as [[t i]|] eqn:Hs.
   - destruct (scan_some _ _ _ _ _ _ _ _ _ Hs) as [_ [Hi [Hnth [Hadv _]]]]. rewrite Nat.sub_0_r in *.
-    destruct (c_beh c (task_peer ts t) h) eqn:Hb; cbn [accepted].
+    assert (Ht : In t view) by (rewrite <- Hnth; apply nth_In; exact Hi).
+    destruct (accepted (c_beh c (task_peer ts t) h)) eqn:Ha.
     + split; [reflexivity|]. exists (task_peer ts t). right. left. reflexivity.
-    + assert (Hng : good c ts h (nth i view 0) = false).
-      { rewrite Hnth. unfold good, serves. rewrite Hb. apply andb_false_r. }
-      destruct (IH (remove_nth i view) (S retry) (existsb_remove_nth _ _ _ Hex Hng)
-                   (forallb_remove_nth _ _ _ Hwf)) as [H1 [p Hp]].
-      * rewrite remove_nth_length by exact Hi. lia.
+    + assert (Hng : good c ts h t = false).
+      { unfold good, serves. destruct (c_beh c (task_peer ts t) h); simpl in Ha; try discriminate;
+          apply andb_false_r. }
+      destruct (IH (without t view) (S retry) (existsb_without _ _ _ Hex Hng)) as [H1 [p Hp]].
+      * pose proof (without_length_lt t view Ht). lia.
       * lia.
       * cbn [fst snd]. split; [exact H1|]. exists p. right. exact Hp.
-    + assert (Hng : good c ts h (nth i view 0) = false).
-      { rewrite Hnth. unfold good, serves. rewrite Hb. apply andb_false_r. }
-      destruct (IH (remove_nth i view) (S retry) (existsb_remove_nth _ _ _ Hex Hng)
-                   (forallb_remove_nth _ _ _ Hwf)) as [H1 [p Hp]].
-      * rewrite remove_nth_length by exact Hi. lia.
-      * lia.
-      * cbn [fst snd]. split; [exact H1|]. exists p. right. exact Hp.
-    + assert (Hng : good c ts h (nth i view 0) = false).
-      { rewrite Hnth. unfold good, serves. rewrite Hb. apply andb_false_r. }
-      destruct (IH (remove_nth i view) (S retry) (existsb_remove_nth _ _ _ Hex Hng)
-                   (forallb_remove_nth _ _ _ Hwf)) as [H1 [p Hp]].
-      * rewrite remove_nth_length by exact Hi. lia.
-      * lia.
-      * cbn [fst snd]. split; [exact H1|]. exists p. right. exact Hp.
-    + exfalso. unfold wrong_free in Hwf.
-      pose proof (proj1 (forallb_forall _ _) Hwf t) as Hw.
-      assert (Hin : In t view) by (rewrite <- Hnth; apply nth_In; exact Hi).
-      specialize (Hw Hin). cbv beta in Hw. rewrite Hb in Hw. discriminate.
   - exfalso. pose proof (scan_none_zeros _ _ _ _ _ _ _ Hs) as Hall.
     apply existsb_exists in Hex. destruct Hex as [t [Hin Hg]].
     pose proof (proj1 (forallb_forall _ _) Hall t Hin) as Hlow. cbv beta in Hlow.
@@ -258,14 +232,14 @@ Proof.
     apply Z.leb_le in Hg. apply Z.ltb_lt in Hlow. lia.
 Qed.
 
-(** soundness: whatever [solo] hands over came from a peer of the view that
-    is high enough and answered with a block *)
+(** soundness: whatever [solo] hands over is the block of the requested height
+    from a peer of the view that is high enough and answered with it *)
 Lemma solo_deliveries c ts n h : forall k view retry o,
   In o (fst (solo c ts n h k view retry)) ->
   match o with
   | ODeliver bh p =>
       exists t, In t view /\ p = task_peer ts t /\ (h <=? c_adv c p)%Z = true
-                /\ exists a, accepted (c_beh c p h) = Some a /\ bh = deliver_height h a
+                /\ accepted (c_beh c p h) = true /\ bh = h
   | OReq h' p => exists t, In t view /\ p = task_peer ts t /\ (h <=? c_adv c p)%Z = true
   | OInit _ => False
   end.
@@ -278,28 +252,28 @@ Proof.
     assert (Ht : In t view) by (rewrite <- Hnth; apply nth_In; exact Hi).
     assert (Hel : (h <=? c_adv c (task_peer ts t))%Z = true)
       by (apply Z.leb_le; apply Z.ltb_ge in Hadv; exact Hadv).
-    destruct (accepted (c_beh c (task_peer ts t) h)) as [a|] eqn:Ha.
+    destruct (accepted (c_beh c (task_peer ts t) h)) eqn:Ha.
     + destruct Hin as [<-|[<-|[]]].
       * exists t. auto.
-      * exists t. repeat split; auto. exists a. split; [exact Ha|reflexivity].
+      * exists t. repeat split; auto.
     + cbn [fst] in Hin. destruct Hin as [<-|Hin].
       * exists t. auto.
       * specialize (IH _ _ _ Hin). destruct o as [l|h' p|bh p]; auto.
-        -- destruct IH as [t' [Hin' H']]. exists t'. split; [apply (remove_nth_in _ _ _ Hin')|exact H'].
-        -- destruct IH as [t' [Hin' H']]. exists t'. split; [apply (remove_nth_in _ _ _ Hin')|exact H'].
+        -- destruct IH as [t' [Hin' H']]. exists t'. split; [apply without_in in Hin'; exact (proj1 Hin')|exact H'].
+        -- destruct IH as [t' [Hin' H']]. exists t'. split; [apply without_in in Hin'; exact (proj1 Hin')|exact H'].
   - apply (IH _ _ _ Hin).
 Qed.
 
 Lemma solo_true_delivers c ts n h : forall k view retry,
   snd (solo c ts n h k view retry) = true ->
-  exists bh p, In (ODeliver bh p) (fst (solo c ts n h k view retry)).
+  exists p, In (ODeliver h p) (fst (solo c ts n h k view retry)).
 Proof.
   induction k as [|k IH]; intros view retry H; [discriminate|].
   cbn [solo] in *. destruct view as [|x view'] eqn:Hv; [discriminate|]. rewrite <- Hv in *. clear Hv.
   destruct (max_retry <? S retry); [discriminate|].
   destruct (scan c ts (zeros n) h (limit_of (length view)) view 0) as [[t i]|].
-  - destruct (accepted (c_beh c (task_peer ts t) h)) as [a|].
-    + eexists. eexists. right. left. reflexivity.
-    + cbn [fst snd] in *. destruct (IH _ _ H) as [bh [p Hp]]. exists bh, p. right. exact Hp.
+  - destruct (accepted (c_beh c (task_peer ts t) h)).
+    + eexists. right. left. reflexivity.
+    + cbn [fst snd] in *. destruct (IH _ _ H) as [p Hp]. exists p. right. exact Hp.
   - apply (IH _ _ H).
 Qed.
